@@ -449,3 +449,8 @@ MORE4 = {'C01': " Round 6: after the per-member checks a SESSION of up to 12 cal
 MORE5 = {'C01': " Round 7: names with bytes >= 0x80 (UTF-8 letters, combining mark, lone 0x80/0xFF; the listing judged under any consistent byte ranking, refvol::order_consistent); payloads that look like the container's own structure (block tags with lengths, volume headers, RIFF/WAVE preambles, runs); an archive beyond 2 GiB written by the library (2^31-1 byte sparse member followed by two small ones) and read back through every accessor.", 'C02': ' Round 7: sparse reference archives beyond 2 GiB (first member 0x7FFFFF00..0x7FFFFFFF bytes, two members starting around/beyond 2^31); ExtractAllFiles judged member by member; high-byte names as in C01.', 'C03': " Round 7: stems extended by punctuation on either side of '.' (a, a-b, 'a b', a_b, a!) and by bytes >= 0x80, sweep of 14 such triples (found defect 83ceaed); audio data that starts like a RIFF/WAVE file, carries chunk headers or the clump header, or IS a complete nested WAV.", 'C04': ' Round 7: ExtractAllFiles on the three-LZH-member volume (larger packed size first).', 'C05': ' Round 7: the extent rule applied to ExtractAllFiles; refusal storms (400 refused calls of each kind on one object, 800 refused opens, lawful calls in between) under a descriptor budget of 160 per harness process.', 'C06': ' Round 7: each table on its own past 64 KiB and 128 KiB of serialised bytes (3000 groups at eight alignments, 300/600 terrain types, 9000/18000 mappings, 5000/11000 sources); ReadMap through the overload taking a temporary stream for half of the inputs.', 'C08': ' Round 7: ReadIndexed / WriteIndexed through their rvalue overloads for half of the inputs.', 'C09': ' Round 7: both writer overloads of WriteCustomTileset give the same bytes and both refuse every violating picture in both scan-line orientations; ReadTileset and PeekIsCustomTileset through their rvalue overloads for half of the inputs.', 'C10': ' Round 7: image tables of 1025/2049/4097/65537/70000 records with one violating record (the last, record 1024, the middle, record 65536) refused on read and on write; kind and position of a planted violation derived from the structure when the tape is used up; ArtFile::Read through its rvalue overload for half of the inputs.', 'C11': ' Round 7: PRT tables of 65537/70000/131073 images with one foreign palette index late in the table; follow-ups extract exactly the records whose palette index is out of range.', 'C12': ' Round 7: std::u16string / std::u32string in the plain and size-prefixed typed reads.', 'C13': ' Round 7: 700 file slices alive at once, each first touched by a relative seek (descriptor budget lifted for the case); 1200 refused slice requests, 400 refused Slice(n), 400 refused opens, lawful requests in between.', 'C14': ' Round 7: every refused cell of the FileWriter open-flag matrix 300 times in a row, destinations that are directories or lie in missing directories, then the whole matrix again (descriptor budget 160).', 'C15': ' Round 7: half of the histories encoder-style (only the symbol about to be coded is asked for, one bit order per history); fifteen 20000-step encoder-style runs.', 'C17': ' Round 7: VOL and CLM archives of 65600 members: lookup, streams by index and name, resolution and containing archive through the manager on both sides of 65536.', 'C18': ' Round 7: twin names differing only in the ASCII case bit of a non-letter; volumes of 70..110 members with names of at least 12 characters (name table and index past 1 KiB).', 'C20': ' Round 7: 600..1000 members with names of 60..100 characters (tables, block headers and padding exceed 64 KiB) and a data total just below 2^32 - 64 KiB: the offsets do not fit although the data would.'}
 for _pid, _t in MORE.items():
     PROPS[_pid]['rule'] += " Also generated (second session): " + _t + MORE3.get(_pid, '') + MORE4.get(_pid, '') + MORE5.get(_pid, '')
+
+for _pid, _c in PROPS.items():
+    _c.setdefault('assumptions', [])
+    _c['assumptions'] = list(_c['assumptions']) + ["every harness process runs with a budget of %d open file descriptors (a lawful operation of this property never needs more at once)" % _c.get('nofile', 160),
+                                                    "a failure that needs state left by earlier cases of the same process is reported through a recorded sequence of cases (TAPES / SWEEPSET replay file)"]
